@@ -364,19 +364,25 @@ pub struct SelSpec {
 #[derive(Clone, Debug, PartialEq)]
 pub enum CondS {
     One(XS),
+    /// Cond::any() group (empty = FALSE)
     Any(Vec<XS>),
+    /// Cond::all() group (empty = TRUE)
+    All(Vec<XS>),
 }
 impl CondS {
-    fn ref_sql(&self) -> String {
+    pub fn ref_sql(&self) -> String {
         match self {
             CondS::One(x) => x.ref_sql(),
+            CondS::Any(v) if v.is_empty() => "(1 = 0)".into(),
+            CondS::All(v) if v.is_empty() => "(1 = 1)".into(),
             CondS::Any(v) => format!("({})", v.iter().map(|x| x.ref_sql()).collect::<Vec<_>>().join(" OR ")),
+            CondS::All(v) => format!("({})", v.iter().map(|x| x.ref_sql()).collect::<Vec<_>>().join(" AND ")),
         }
     }
-    fn tags(&self, d: Dialect, out: &mut Vec<V>) {
+    pub fn tags(&self, d: Dialect, out: &mut Vec<V>) {
         match self {
             CondS::One(x) => x.tags(d, out),
-            CondS::Any(v) => v.iter().for_each(|x| x.tags(d, out)),
+            CondS::Any(v) | CondS::All(v) => v.iter().for_each(|x| x.tags(d, out)),
         }
     }
 }
@@ -643,7 +649,8 @@ pub fn op_class(op: &SelOp) -> &'static str {
         SelOp::From(FromItem::Values(..)) => "from-values",
         SelOp::Join(..) => "join",
         SelOp::Where(CondS::One(_)) => "and_where",
-        SelOp::Where(CondS::Any(_)) => "cond_where",
+        SelOp::Where(CondS::Any(v)) | SelOp::Where(CondS::All(v)) if v.is_empty() => "cond_where-empty-group",
+        SelOp::Where(CondS::Any(_)) | SelOp::Where(CondS::All(_)) => "cond_where",
         SelOp::Group(_) => "group_by",
         SelOp::Having(_) => "having",
         SelOp::Union(..) => "union",
@@ -657,11 +664,11 @@ pub fn op_class(op: &SelOp) -> &'static str {
     }
 }
 
-fn cond_build(c: &CondS, d: Dialect) -> Condition {
+pub fn cond_build(c: &CondS, d: Dialect) -> Condition {
     match c {
         CondS::One(x) => x.build(d).into_condition(),
-        CondS::Any(v) => {
-            let mut c = Cond::any();
+        CondS::Any(v) | CondS::All(v) => {
+            let mut c = if matches!(c, CondS::Any(_)) { Cond::any() } else { Cond::all() };
             for x in v {
                 c = c.add(x.build(d));
             }
